@@ -131,6 +131,7 @@ type TermStore struct {
 	ufs   map[string]*UFDecl
 	ufOrd []*UFDecl
 	nvars int
+	consts map[constKey]*Term
 }
 
 func NewTermStore() *TermStore {
@@ -181,15 +182,34 @@ func (ts *TermStore) mk(op Op, s Sort, c uint64, a0, a1 int, name string, args .
 
 func (ts *TermStore) Bool(b bool) *Term {
 	if b {
-		return ts.mk(OConst, SortBool, 1, 0, 0, "")
+		return ts.constTerm(SortBool, 1)
 	}
-	return ts.mk(OConst, SortBool, 0, 0, 0, "")
+	return ts.constTerm(SortBool, 0)
 }
 func (ts *TermStore) True() *Term  { return ts.Bool(true) }
 func (ts *TermStore) False() *Term { return ts.Bool(false) }
 
+type constKey struct {
+	k SortKind
+	w int
+	v uint64
+}
+
+func (ts *TermStore) constTerm(s Sort, v uint64) *Term {
+	if ts.consts == nil {
+		ts.consts = map[constKey]*Term{}
+	}
+	ck := constKey{s.K, s.W, v}
+	if t, ok := ts.consts[ck]; ok {
+		return t
+	}
+	t := ts.mk(OConst, s, v, 0, 0, "")
+	ts.consts[ck] = t
+	return t
+}
+
 func (ts *TermStore) BVConst(w int, v uint64) *Term {
-	return ts.mk(OConst, BV(w), v&mask(w), 0, 0, "")
+	return ts.constTerm(BV(w), v&mask(w))
 }
 func (ts *TermStore) F32Const(f float32) *Term {
 	return ts.mk(OConst, SortF32, uint64(math.Float32bits(f)), 0, 0, "")
